@@ -92,6 +92,8 @@ def _zygote_main(tree, rfd, wfd, other=False):
         root = logging.getLogger()
         root.addHandler(logging.NullHandler())
         root.setLevel(logging.DEBUG)
+        # ... and on a platform whose text-file line separator is CR LF (what Python code sees of it: os.linesep)
+        os.linesep = "\r\n"
     import simple_ddl_parser  # noqa: F401   (logging is left alone: fds 0-2 are /dev/null; the constructor's root config is real)
     try:
         import simple_ddl_parser.parsetab  # noqa: F401  (data only; builds no lexer / parser)
